@@ -107,7 +107,7 @@ def search(rep: C.Report, tier: str, broken):
                 solver.setBackground(B.background(grid))
                 dF0 = solver.solveBoltzmannEquations()
                 rep.case(key=("homog", M, N, npart, bM, bN))
-                if np.max(np.abs(dF0)) > 1e-12:
+                if not np.max(np.abs(dF0)) <= 1e-12:
                     rep.violation("homogeneous background gives a non-vanishing deviation",
                                   {"M": M, "N": N, "particles": npart, "basis": [bM, bN], "max_abs_deltaF": float(np.max(np.abs(dF0)))},
                                   finding_key="C12:homogeneous")
@@ -118,7 +118,7 @@ def search(rep: C.Report, tier: str, broken):
                     resid = np.max(np.abs(op @ dF.ravel() - src)) / (np.max(np.abs(src)) + 1e-300)
                     rep.case(key=("solve", M, N, npart, bM, bN, kind))
                     rep.count(f"solve {kind}")
-                    if resid > 1e-9:
+                    if not resid <= 1e-09:
                         rep.violation("returned deviation does not satisfy the assembled linear system",
                                       {"M": M, "N": N, "basis": [bM, bN], "background": kind, "relative_residual": float(resid)},
                                       finding_key="C12:residual")
@@ -143,7 +143,7 @@ def search(rep: C.Report, tier: str, broken):
                                           float(np.max(np.abs(np.asarray(shared_bg.temperatureProfile) - shared_before[1]))),
                                           float(np.max(np.abs(np.asarray(shared_bg.fieldProfiles) - shared_before[2]))),
                                           abs(float(shared_bg.velocityWall) - shared_before[3]), abs(float(shared_bg.velocityMid) - shared_before[4]))
-                            if es > 1e-10 or changed > 0:
+                            if not es <= 1e-10 or not changed <= 0:
                                 rep.violation("solving with a background object that was used before (other basis / same solver) differs from solving with a "
                                               "fresh copy of it, or setBackground modified the caller's background",
                                               {"M": M, "N": N, "particles": npart, "basis": [bM, bN], "use_number_on_this_solver": rep_,
@@ -156,7 +156,7 @@ def search(rep: C.Report, tier: str, broken):
                         (c0, d0), b0 = ref[kind]
                         e1 = np.max(np.abs(cur[0] - c0)) / (np.max(np.abs(c0)) + 1e-300)
                         e2 = np.max(np.abs(cur[1] - d0)) / (np.max(np.abs(d0)) + 1e-300)
-                        if e1 > 1e-7 or e2 > 1e-7:
+                        if not e1 <= 1e-07 or not e2 <= 1e-07:
                             rep.violation("the deviation (as a function on phase space) or its moments depend on the polynomial basis",
                                           {"M": M, "N": N, "particles": npart, "basis": [bM, bN], "reference_basis": list(b0), "background": kind,
                                            "rel_diff_deltaF": float(e1), "rel_diff_moments": float(e2)}, finding_key="C12:basis-dependence")
